@@ -66,5 +66,7 @@ def opHlift : Handler := fun args impl =>
     | _, _, _, _, _, _, _ => bad
   | _ => bad
 
-def ops : List (String × Handler) := [("pm.lift", opLift), ("pm.hlift", opHlift)]
+/-- `pm.lift.i128`: the same generic routine instantiated at `i128` (deterministic: same specification
+and the same textual answer as the BigInt instantiation) -/
+def ops : List (String × Handler) := [("pm.lift", opLift), ("pm.lift.i128", opLift), ("pm.hlift", opHlift)]
 end NTV.Driver.C11
